@@ -277,7 +277,10 @@ def execute(spec):
 
     # -- reset process-global state -----------------------------------------------
     seams.restore_pristine()
-    m.nodes.Node._Node__ID_COUNTER.value = 0
+    if hasattr(m.nodes.Node, '_Node__ID_COUNTER'):
+        m.nodes.Node._Node__ID_COUNTER = seams.SimCounter(
+            (spec.get('sched') or {}).get('idc_points') or (),
+            (spec.get('sched') or {}).get('idc_every') or 0)
     seams._EVENTS.clear()
     seams._PREEXEC_TARGET.clear()
     root = logging.getLogger()
